@@ -462,6 +462,15 @@ func runC09(tier string, seed uint64) {
 					corpus = append(corpus, Req{Method: "GET", Path: "/" + singleBucketName + "?uploads&max-uploads=" + strconv.Itoa(n) + extra})
 				}
 			}
+			// ranges whose positions sit exactly on, one before and one after the end of the object they are asked of
+			// ("k" holds 10 bytes on the unversioned stores, 13 where it has versions; "d/e" holds 6)
+			for _, rk := range [][2]string{{"k", "10"}, {"k", "13"}, {"d/e", "6"}} {
+				n, _ := strconv.Atoi(rk[1])
+				for _, rg := range []string{fmt.Sprintf("bytes=0-%d", n), fmt.Sprintf("bytes=0-%d", n-1), fmt.Sprintf("bytes=0-%d", n+1), fmt.Sprintf("bytes=%d-%d", n-1, n), fmt.Sprintf("bytes=%d-%d", n, n),
+					fmt.Sprintf("bytes=%d-", n), fmt.Sprintf("bytes=%d-", n-1), fmt.Sprintf("bytes=-%d", n), fmt.Sprintf("bytes=-%d", n+1), fmt.Sprintf("bytes=1-%d", n)} {
+					corpus = append(corpus, Req{Method: "GET", Path: "/" + singleBucketName + "/" + rk[0], Header: [][2]string{{"Range", rg}}})
+				}
+			}
 			// conditional reads of an existing object: every spelling of an entity tag / date a client may send
 			for _, cv := range []string{"*", "\"x\"", "W/", "W/\"x\"", "W", "\"", "\"\"", ",", "W/*", "W/\"", " ", "W/ ", "\"5d41402abc4b2a76b9719d911017c592\"", "W/\"781e5e245d69b566979b86e28d23f2c7\"", "781e5e245d69b566979b86e28d23f2c7", "\"a\", W/", ",,", "W/W/"} {
 				for _, hn := range []string{"If-None-Match", "If-Match"} {
